@@ -527,33 +527,114 @@ fn spec_clamp01_is_clamp() {
 // ---------------------------------------------------------------------------------------------------
 // (3) entry points: the rectangle / offset arithmetic of patch() and of blend()
 // ---------------------------------------------------------------------------------------------------
-// The kernels above are proved for every rectangle handed to them; what follows decides WHICH rectangle the two
-// entry points hand over. Coordinates: every channel of an ImageWithRegion carries the frame rectangle (Region)
-// its buffer covers; buffer position (px, py) of a channel with region R is frame sample (R.left + px, R.top + py).
+// The kernels above are proved for every rectangle handed to them; what follows decides WHICH rectangle, WHICH buffers
+// and WHICH alpha planes the two entry points hand over. Coordinates: every channel of an ImageWithRegion carries the
+// frame rectangle (Region) its buffer covers; buffer position (px, py) of a channel with region R is frame sample
+// (R.left + px, R.top + py).
 //
 // patch():  for every PatchTarget (x, y) of a PatchRef (x0, y0, width, height), every channel c and every frame
 //   sample (X, Y) of the canvas channel:
-//       (X, Y) in [x, x+width) x [y, y+height)   (and its source sample lies in the reference's buffer)
-//            => canvas'(X, Y) = spec_blend_pixel(blending[c], canvas(X, Y), reference(x0 + (X - x), y0 + (Y - y)))
+//       (X, Y) in [x, x+width) x [y, y+height)   (and its source sample exists in the reference's buffer)
+//            => canvas'(X, Y) = spec_blend_pixel(blending[c], canvas(X, Y), alpha(canvas)(X, Y),
+//                                                reference(x0 + (X - x), y0 + (Y - y)), alpha(reference)(same))
 //       otherwise canvas'(X, Y) = canvas(X, Y);
-//   colour channels use blending[0], extra channel i uses blending[1 + i]; the reference is never written; nothing
-//   is read or written outside the two buffers; a target that misses the canvas rectangle changes nothing.
+//   colour channels use blending[0], extra channel i uses blending[1 + i]; canvas / canvas alpha are the values BEFORE
+//   the target is applied (all channels of one target are blended from the same state: the reference decoder blends
+//   into a temporary row "so that we use the pre-blending alpha"); targets are applied in order; the reference is
+//   never written; nothing is read or written outside the buffers; a target that misses the canvas changes nothing.
 // Preconditions (call site render.rs:183-195 + Patches::parse, jxl-frame/src/data/patch.rs:84-200):
-//   * both images have the same channel list, every buffer of the reference is F32 (the reference went through
+//   * both images have the same channel list; every buffer of the reference is F32 (the reference went through
 //     RenderedImage::blend: composite_preprocess / blend() convert every channel, see cp.* in image.rs);
 //   * one blending entry per colour-channel group + extra channel (patch.rs:173-190: take(num_extra + 1));
 //   * patch width / height >= 1 (patch.rs:131-132: varint + 1).
-// Coordinates themselves are NOT validated by the parser: x0, y0, width, height are any u32, x, y any i32.
+//   Coordinates are NOT validated by the parser (x0, y0 any u32; x, y any i32; alpha_channel unchecked when the image
+//   has two or more alpha channels); the value contracts below take the ranges of a VALID stream (|coordinates| <= 2^30,
+//   the frame size limit) and the totality harnesses (patch_total_*) take everything the parser lets through.
+//
+// Two layers:
+//   (a) composition harnesses: blend_single is replaced by ITS CONTRACT (`blend_single_model`: spec_blend_pixel over
+//       the rectangle, what bl.kernel_* prove of the real kernel) and the kernel's precondition -- rectangle inside both
+//       buffers, alpha planes of the buffers' geometry, which bl.kernel_* ASSUME -- is ASSERTED here. Reason: CBMC does
+//       not propagate constants through Vec<ImageBuffer> and the Chain iterator of patch(), so with the real kernel
+//       every arm of blend_single is unrolled for every channel iteration (a fully CONCRETE 2x2 call: > 10 min of
+//       symbolic execution, measured).
+//   (b) end-to-end harnesses with the real kernel on the smallest shapes (patch_*_end_to_end, thorough tier).
 use jxl_frame::data::{PatchBlendMode, PatchTarget};
 use jxl_oxide_common::BundleDefault;
+use std::mem::ManuallyDrop;
 
-fn image_header_with_extra(ec: &[jxl_image::ExtraChannelInfo]) -> ImageHeader {
+const MAX_COORD: i64 = 1 << 30; // frame width / height limit (jxl-frame/src/lib.rs:122-129)
+const MAX_TARGET: i64 = 1 << 29; // |x|, |y| of a patch target / |origin| of a rendered rectangle in the value contracts: a valid stream
+                                 // keeps them inside the frame; up to 2^29 no i32 sum of two coordinates overflows
+
+/// Contract of `blend_single` (the statement proved by bl.kernel_*), used in its place.
+fn blend_single_model(mut base: MutableSubgrid<f32>, new_grid: SharedSubgrid<f32>, p: &BlendParams<'_>) {
+    let b = view(&p.mode);
+    let (bx, by) = p.base_topleft;
+    let (nx, ny) = p.new_topleft;
+    let (w, h) = (p.width, p.height);
+    let (old_plane, new_plane) = match &p.mode {
+        BlendMode::Blend(a) | BlendMode::MulAdd(a) if a.new.is_some() => (a.base.as_ref(), a.new.as_ref()),
+        _ => (None, None),
+    };
+    if w == 0 || h == 0 {
+        return; // empty rectangle: the kernel's loops do not run, whatever the offsets are
+    }
+    let fits = bx <= base.width() && w <= base.width() - bx && by <= base.height() && h <= base.height() - by;
+    assert!(fits, "[C05,C02] the rectangle handed to the kernel lies inside the canvas buffer");
+    let fits_new = nx <= new_grid.width() && w <= new_grid.width() - nx && ny <= new_grid.height() && h <= new_grid.height() - ny;
+    assert!(fits_new, "[C05,C02] the rectangle handed to the kernel lies inside the buffer of the new frame / reference");
+    let planes_fit = new_plane.map_or(true, |g| g.width() == new_grid.width() && g.height() == new_grid.height())
+        && old_plane.map_or(true, |g| g.width() == base.width() && g.height() == base.height());
+    assert!(planes_fit, "[C05,C02] the alpha planes handed to the kernel have the geometry of their sample buffers");
+    kani::assume(fits && fits_new && planes_fit);
+    // row accessors: one index multiplication per row instead of one per sample
+    let mut dy = 0;
+    while dy < h {
+        let out_row = base.get_row_mut(by + dy);
+        let new_row = new_grid.get_row(ny + dy);
+        let old_alpha_row = old_plane.map(|g| g.get_row(by + dy));
+        let new_alpha_row = new_plane.map(|g| g.get_row(ny + dy));
+        let mut dx = 0;
+        while dx < w {
+            let old_alpha = old_alpha_row.map_or(0.0, |r| r[bx + dx]);
+            let new_alpha = new_alpha_row.map_or(0.0, |r| r[nx + dx]);
+            out_row[bx + dx] = spec_blend_pixel(b, out_row[bx + dx], old_alpha, new_row[nx + dx], new_alpha);
+            dx += 1;
+        }
+        dy += 1;
+    }
+}
+
+/// Contract of `ImageBuffer::convert_to_float_modular` on a buffer that already is F32 (the only kind the float-image harnesses
+/// build): the buffer itself, whatever the bit depth. The integer arms allocate through AlignedGrid::with_alloc_tracker, which
+/// CBMC explores for minutes on the infeasible paths of patch()'s channel loop; reaching them here fails the harness.
+fn convert_float_only_model(buffer: &mut ImageBuffer, _bit_depth: jxl_image::BitDepth) -> Result<&mut AlignedGrid<f32>> {
+    match buffer {
+        ImageBuffer::F32(g) => Ok(g),
+        _ => {
+            assert!(false, "harness model: every buffer of this harness is F32");
+            kani::assume(false);
+            unreachable!()
+        }
+    }
+}
+
+fn image_header_with_extra<const E: usize>(ec: [jxl_image::ExtraChannelInfo; E]) -> ImageHeader {
     let size = <jxl_image::SizeHeader as BundleDefault<()>>::default_with_context(());
     let mut metadata = <jxl_image::ImageMetadata as BundleDefault<()>>::default_with_context(());
     for e in ec {
-        metadata.ec_info.push(e.clone());
+        metadata.ec_info.push(e);
     }
     ImageHeader { size, metadata }
+}
+
+fn alpha_channel_info(alpha_associated: bool) -> jxl_image::ExtraChannelInfo {
+    jxl_image::ExtraChannelInfo { ty: jxl_image::ExtraChannelType::Alpha { alpha_associated }, ..Default::default() }
+}
+
+fn depth_channel_info() -> jxl_image::ExtraChannelInfo {
+    jxl_image::ExtraChannelInfo { ty: jxl_image::ExtraChannelType::Depth, ..Default::default() }
 }
 
 /// a value in lo..=hi held in a byte (keeps CBMC's index arithmetic narrow)
@@ -563,18 +644,39 @@ fn small_i32(lo: i8, hi: i8) -> i32 {
     v as i32
 }
 
-/// H rows of W finite samples (row loops of at most 4 iterations: the harnesses below run with unwind(5), which is
-/// what bounds the kernels' loops)
-fn finite_samples<const W: usize, const H: usize>() -> [[f32; W]; H] {
-    let a: [[f32; W]; H] = kani::any();
-    let mut y = 0;
-    while y < H {
-        let mut x = 0;
-        while x < W {
-            kani::assume(a[y][x].is_finite());
-            x += 1;
+fn coord_i32() -> i32 {
+    let v: i32 = kani::any();
+    kani::assume(-MAX_COORD <= v as i64 && v as i64 <= MAX_COORD);
+    v
+}
+
+fn target_i32() -> i32 {
+    let v: i32 = kani::any();
+    kani::assume(-MAX_TARGET <= v as i64 && v as i64 <= MAX_TARGET);
+    v
+}
+
+fn coord_u32() -> u32 {
+    let v: u32 = kani::any();
+    kani::assume(v as i64 <= MAX_COORD);
+    v
+}
+
+/// N channels of H rows of W finite samples (loops of at most 4 iterations: the harnesses run with unwind(5))
+fn finite_samples<const W: usize, const H: usize, const N: usize>() -> [[[f32; W]; H]; N] {
+    let a: [[[f32; W]; H]; N] = kani::any();
+    let mut c = 0;
+    while c < N {
+        let mut y = 0;
+        while y < H {
+            let mut x = 0;
+            while x < W {
+                kani::assume(a[c][y][x].is_finite());
+                x += 1;
+            }
+            y += 1;
         }
-        y += 1;
+        c += 1;
     }
     a
 }
@@ -594,55 +696,77 @@ struct GridMirror {
 }
 
 fn float_grid<const W: usize, const H: usize>(samples: &[[f32; W]; H]) -> AlignedGrid<f32> {
-    let (w, h) = (W, H);
     let samples = samples.as_flattened();
-    let N = w * h;
-    let mut buf = Vec::with_capacity(N);
+    let n = W * H;
+    let mut buf = Vec::with_capacity(n);
     buf.extend_from_slice(samples);
-    let g: AlignedGrid<f32> = unsafe { std::mem::transmute(GridMirror { width: w, height: h, offset: 0, buf, handle: None }) };
-    assert!(g.width() == w && g.height() == h && g.buf().len() == N && g.tracker().is_none());
-    assert!(N == 0 || (g.buf()[0].to_bits() == samples[0].to_bits() && g.buf()[N - 1].to_bits() == samples[N - 1].to_bits()));
+    let g: AlignedGrid<f32> = unsafe { std::mem::transmute(GridMirror { width: W, height: H, offset: 0, buf, handle: None }) };
+    assert!(g.width() == W && g.height() == H && g.buf().len() == n && g.tracker().is_none());
+    assert!(n == 0 || (g.buf()[0].to_bits() == samples[0].to_bits() && g.buf()[n - 1].to_bits() == samples[n - 1].to_bits()));
     g
 }
 
-fn float_buffer<const W: usize, const H: usize>(samples: &[[f32; W]; H]) -> ImageBuffer {
-    ImageBuffer::F32(float_grid(samples))
+/// N float channels of W x H samples, channel c covering `regions[c]`
+fn float_image<const W: usize, const H: usize, const N: usize>(color_channels: usize, samples: &[[[f32; W]; H]; N], regions: &[Region; N]) -> ImageWithRegion {
+    let mut img = ImageWithRegion::new(color_channels, None);
+    let mut c = 0;
+    while c < N {
+        img.append_channel(ImageBuffer::F32(float_grid(&samples[c])), regions[c]);
+        c += 1;
+    }
+    img
 }
 
-/// A `Vec` whose buffer is the given stack array (never grown, never dropped: every owner is `mem::forget`-ed).
-/// CBMC propagates constants through stack objects but not through heap allocations; with the blend modes in a heap
-/// Vec every kernel arm is unrolled for every channel iteration (measured: symbolic execution alone > 12 min).
-fn stack_vec<T, const N: usize>(a: &mut [T; N]) -> Vec<T> {
+/// A `Vec` whose buffer is the given stack array (never grown, never dropped: the array is ManuallyDrop and every owner
+/// is `mem::forget`-ed). CBMC propagates constants through stack objects but not through heap allocations.
+fn stack_vec<T, const N: usize>(a: &mut ManuallyDrop<[T; N]>) -> Vec<T> {
     unsafe { Vec::from_raw_parts(a.as_mut_ptr(), N, N) }
 }
 
-fn sample_of(img: &ImageWithRegion, channel: usize, at: usize) -> f32 {
-    img.buffer()[channel].as_float().unwrap().buf()[at]
+fn sample_of(img: &ImageWithRegion, channel: usize, x: usize, y: usize) -> f32 {
+    img.buffer()[channel].as_float().unwrap().get(x, y)
 }
 
-/// Geometry of one patch application on one channel, in frame coordinates (i64: no overflow in the spec).
+fn patch_mode(raw: u8) -> PatchBlendMode {
+    match raw {
+        0 => PatchBlendMode::None,
+        1 => PatchBlendMode::Replace,
+        2 => PatchBlendMode::Add,
+        3 => PatchBlendMode::Mul,
+        4 => PatchBlendMode::BlendAbove,
+        5 => PatchBlendMode::BlendBelow,
+        6 => PatchBlendMode::MulAddAbove,
+        _ => PatchBlendMode::MulAddBelow,
+    }
+}
+
+fn region_at(left: i32, top: i32, w: usize, h: usize) -> Region {
+    Region { left, top, width: w as u32, height: h as u32 }
+}
+
+/// Geometry of one patch application on one channel, in frame coordinates (i64: the specification does not overflow).
 #[derive(Clone, Copy)]
 struct PatchGeo {
-    canvas: (i64, i64, i64, i64), // left, top, width, height of the canvas channel's buffer
-    reference: (i64, i64, i64, i64),
-    src: (i64, i64),              // x0, y0
-    size: (i64, i64),             // patch width, height
-    target: (i64, i64),           // x, y
+    canvas: Region,
+    reference: Region,
+    src: (i64, i64),    // x0, y0
+    size: (i64, i64),   // patch width, height
+    target: (i64, i64), // x, y
 }
 
-/// Some((reference buffer index)) if canvas buffer position (px, py) is painted by the patch, None if it is kept.
-fn spec_patch_source(g: PatchGeo, px: usize, py: usize) -> Option<usize> {
-    let (x, y) = (g.canvas.0 + px as i64, g.canvas.1 + py as i64);
+/// Some(reference buffer position) if canvas buffer position (px, py) is painted by the patch, None if it is kept.
+fn spec_patch_source(g: PatchGeo, px: usize, py: usize) -> Option<(usize, usize)> {
+    let (x, y) = (g.canvas.left as i64 + px as i64, g.canvas.top as i64 + py as i64);
     let inside = g.target.0 <= x && x < g.target.0 + g.size.0 && g.target.1 <= y && y < g.target.1 + g.size.1;
     if !inside {
         return None;
     }
     let (sx, sy) = (g.src.0 + (x - g.target.0), g.src.1 + (y - g.target.1));
-    let (bx, by) = (sx - g.reference.0, sy - g.reference.1);
-    if bx < 0 || by < 0 || bx >= g.reference.2 || by >= g.reference.3 {
+    let (bx, by) = (sx - g.reference.left as i64, sy - g.reference.top as i64);
+    if bx < 0 || by < 0 || bx >= g.reference.width as i64 || by >= g.reference.height as i64 {
         return None; // no such reference sample: the canvas sample is kept
     }
-    Some((by * g.reference.2 + bx) as usize)
+    Some((bx as usize, by as usize))
 }
 
 const CW: usize = 4; // canvas buffer
@@ -650,65 +774,74 @@ const CH: usize = 3;
 const RW: usize = 4; // reference buffer
 const RH: usize = 3;
 
-/// One colour channel, no extra channels, one target. Canvas 4x3 at a symbolic origin, reference 4x3 at a symbolic
-/// origin, patch 1..=3 x 1..=2 anywhere inside the reference, target anywhere from wholly left / above to wholly
-/// right / below the canvas.
-fn patch_rectangle_contract(mode: PatchBlendMode, op: SpecOp) {
-    let ih = image_header_with_extra(&[]);
-    let canvas_region = Region { left: small_i32(-3, 3), top: small_i32(-3, 3), width: CW as u32, height: CH as u32 };
-    let ref_region = Region { left: small_i32(-2, 2), top: small_i32(-2, 2), width: RW as u32, height: RH as u32 };
-    let (pw, ph) = (small_i32(1, 3), small_i32(1, 2));
-    // the source rectangle lies in the reference's buffer (a valid stream on a wholly rendered reference frame)
-    let (x0, y0) = (small_i32(0, 5), small_i32(0, 4));
-    kani::assume(ref_region.left <= x0 && x0 + pw <= ref_region.left + RW as i32);
-    kani::assume(ref_region.top <= y0 && y0 + ph <= ref_region.top + RH as i32);
-    let (tx, ty) = (small_i32(-6, 7), small_i32(-5, 6));
+#[derive(Clone, Copy, PartialEq, Eq)]
+enum SourceRect {
+    /// the source rectangle lies in the reference's buffer: a valid stream on a wholly rendered reference frame
+    InsideReference,
+    /// reference buffer at the frame origin, source rectangle anywhere (reaching beyond the reference frame): samples
+    /// without a source are kept
+    AnywhereOriginReference,
+}
 
-    let old: [[f32; CW]; CH] = finite_samples();
-    let refs: [[f32; RW]; RH] = finite_samples();
-    let mut canvas = ImageWithRegion::new(1, None);
-    canvas.append_channel(float_buffer(&old), canvas_region);
-    let mut reference = ImageWithRegion::new(1, None);
-    reference.append_channel(float_buffer(&refs), ref_region);
-    let (old, refs) = (old.as_flattened(), refs.as_flattened());
+/// One colour channel, no extra channels, one target, non-alpha modes (kReplace / kAdd / kMul, symbolic). Canvas buffer
+/// 4x3 and reference buffer 4x3 at symbolic origins, every coordinate up to the frame size limit.
+fn patch_rectangle_contract(source: SourceRect, raw_mode: u8) {
+    let ih = image_header_with_extra([]);
+    let canvas_region = region_at(target_i32(), target_i32(), CW, CH);
+    let ref_region = match source {
+        SourceRect::InsideReference => region_at(target_i32(), target_i32(), RW, RH),
+        SourceRect::AnywhereOriginReference => region_at(0, 0, RW, RH),
+    };
+    let (x0, y0, pw, ph) = (coord_u32(), coord_u32(), coord_u32(), coord_u32());
+    kani::assume(pw >= 1 && ph >= 1);
+    if source == SourceRect::InsideReference {
+        kani::assume(ref_region.left as i64 <= x0 as i64 && x0 as i64 + pw as i64 <= ref_region.left as i64 + RW as i64);
+        kani::assume(ref_region.top as i64 <= y0 as i64 && y0 as i64 + ph as i64 <= ref_region.top as i64 + RH as i64);
+    }
+    let (tx, ty) = (target_i32(), target_i32());
+    let clamp: bool = kani::any();
 
-    let mut infos = [BlendingModeInformation { mode, alpha_channel: 0, clamp: kani::any() }];
-    let mut targets = [PatchTarget { x: tx, y: ty, blending: stack_vec(&mut infos) }];
-    let patch_ref = PatchRef { ref_idx: 0, x0: x0 as u32, y0: y0 as u32, width: pw as u32, height: ph as u32, patch_targets: stack_vec(&mut targets) };
+    let old: [[[f32; CW]; CH]; 1] = finite_samples();
+    let refs: [[[f32; RW]; RH]; 1] = finite_samples();
+    let mut canvas = float_image(1, &old, &[canvas_region]);
+    let reference = float_image(1, &refs, &[ref_region]);
+    let mut infos = ManuallyDrop::new([BlendingModeInformation { mode: patch_mode(raw_mode), alpha_channel: 0, clamp }]);
+    let mut targets = ManuallyDrop::new([PatchTarget { x: tx, y: ty, blending: stack_vec(&mut infos) }]);
+    let patch_ref = PatchRef { ref_idx: 0, x0, y0, width: pw, height: ph, patch_targets: stack_vec(&mut targets) };
+
     let r = patch(&ih, &mut canvas, &reference, &patch_ref);
     assert!(r.is_ok(), "[C05,C01] patch() on float buffers has no failure path");
 
-    let g = PatchGeo {
-        canvas: (canvas_region.left as i64, canvas_region.top as i64, CW as i64, CH as i64),
-        reference: (ref_region.left as i64, ref_region.top as i64, RW as i64, RH as i64),
-        src: (x0 as i64, y0 as i64),
-        size: (pw as i64, ph as i64),
-        target: (tx as i64, ty as i64),
-    };
-    let b = plain(op);
+    let g = PatchGeo { canvas: canvas_region, reference: ref_region, src: (x0 as i64, y0 as i64), size: (pw as i64, ph as i64), target: (tx as i64, ty as i64) };
+    let b = spec_patch_channel_blend(raw_mode as u32, clamp, 0, 0, 1, None);
     // one symbolic buffer position of the canvas = every position
     let (px, py) = (small_i32(0, CW as i8 - 1) as usize, small_i32(0, CH as i8 - 1) as usize);
-    let at = py * CW + px;
-    let got = sample_of(&canvas, 0, at);
-    match spec_patch_source(g, px, py) {
-        Some(src_at) => {
-            let expect = spec_blend_pixel(b, old[at], 0.0, refs[src_at], 0.0);
+    let got = sample_of(&canvas, 0, px, py);
+    let src = spec_patch_source(g, px, py);
+    match src {
+        Some((sx, sy)) => {
+            let expect = spec_blend_pixel(b, old[0][py][px], 0.0, refs[0][sy][sx], 0.0);
             assert!(same_f32(got, expect),
                 "[C05] a canvas sample under the patch target equals spec_blend_pixel(old sample, reference sample at (x0 + X - x, y0 + Y - y))");
         }
-        None => assert!(got.to_bits() == old[at].to_bits(), "[C05] canvas samples outside the patch target are unchanged"),
+        None => assert!(got.to_bits() == old[0][py][px].to_bits(), "[C05] canvas samples outside the patch target (or without a source sample) are unchanged"),
     }
     let (qx, qy) = (small_i32(0, RW as i8 - 1) as usize, small_i32(0, RH as i8 - 1) as usize);
-    assert!(sample_of(&reference, 0, qy * RW + qx).to_bits() == refs[qy * RW + qx].to_bits(), "[C05] the reference frame is not modified");
-    assert!(canvas.regions_and_shifts()[0].0 == canvas_region && canvas.color_channels() == 1, "[C05] the canvas keeps its rectangle");
+    assert!(sample_of(&reference, 0, qx, qy).to_bits() == refs[0][qy][qx].to_bits(), "[C05] the reference frame is not modified");
+    assert!(canvas.regions_and_shifts()[0].0 == canvas_region && canvas.color_channels() == 1 && canvas.channels() == 1, "[C05] the canvas keeps its rectangle and channel list");
 
-    let painted = spec_patch_source(g, px, py).is_some();
-    kani::cover!(painted && tx < canvas_region.left && ty < canvas_region.top); // clipped at the left / top edge
-    kani::cover!(painted && tx + pw > canvas_region.left + CW as i32 && ty + ph > canvas_region.top + CH as i32); // clipped right / bottom
-    kani::cover!(painted && x0 > ref_region.left && y0 > ref_region.top && px == 3 && py == 2);
-    kani::cover!(!painted && tx + pw <= canvas_region.left); // target wholly left of the canvas
-    kani::cover!(!painted && ty >= canvas_region.top + CH as i32); // wholly below
-    kani::cover!(!painted && tx <= canvas_region.left + px as i32 - pw && tx + pw > canvas_region.left); // kept sample beside a visible target
+    let painted = src.is_some();
+    let (cl, ct) = (canvas_region.left as i64, canvas_region.top as i64);
+    kani::cover!(painted && g.target.0 < cl && g.target.1 < ct); // clipped at the left / top edge of the canvas
+    kani::cover!(painted && g.target.0 + g.size.0 > cl + CW as i64 && g.target.1 + g.size.1 > ct + CH as i64); // clipped right / bottom
+    kani::cover!(painted && src == Some((RW - 1, RH - 1)) && px == 0 && py == 0);
+    kani::cover!(!painted && g.target.0 + g.size.0 <= cl); // target wholly left of the canvas
+    kani::cover!(!painted && g.target.1 >= ct + CH as i64); // wholly below
+    kani::cover!(!painted && g.target.0 + g.size.0 == cl + px as i64 && g.target.1 <= ct + py as i64 && ct + (py as i64) < g.target.1 + g.size.1); // kept sample right of a visible target
+    if source == SourceRect::AnywhereOriginReference {
+        kani::cover!(painted && g.src.0 + g.size.0 > RW as i64 + 5); // source rectangle reaches beyond the reference
+        kani::cover!(!painted && g.target.0 <= cl + px as i64 && cl + (px as i64) < g.target.0 + g.size.0 && g.target.1 <= ct + py as i64 && ct + (py as i64) < g.target.1 + g.size.1);
+    }
     std::mem::forget(r);
     std::mem::forget(canvas);
     std::mem::forget(reference);
@@ -717,39 +850,16 @@ fn patch_rectangle_contract(mode: PatchBlendMode, op: SpecOp) {
 
 #[kani::proof]
 #[kani::unwind(5)]
-fn patch_replace_rectangle() {
-    patch_rectangle_contract(PatchBlendMode::Replace, SpecOp::Replace);
+#[kani::stub(blend_single, blend_single_model)]
+#[kani::stub(ImageBuffer::convert_to_float_modular, convert_float_only_model)]
+fn patch_rectangle() {
+    patch_rectangle_contract(SourceRect::InsideReference, 1);
 }
 
 #[kani::proof]
 #[kani::unwind(5)]
-fn patch_add_rectangle() {
-    patch_rectangle_contract(PatchBlendMode::Add, SpecOp::Add);
+#[kani::stub(blend_single, blend_single_model)]
+#[kani::stub(ImageBuffer::convert_to_float_modular, convert_float_only_model)]
+fn patch_source_clipped() {
+    patch_rectangle_contract(SourceRect::AnywhereOriginReference, 1);
 }
-
-
-// PROBE-BEGIN
-#[inline(never)] fn spin_a(n: usize) -> usize { let mut k = 0; let mut i = 0; while i < n { k += 2; i += 1; } k }
-#[inline(never)] fn spin_b(n: usize) -> usize { let mut k = 0; let mut i = 0; while i < n { k += 2; i += 1; } k }
-#[inline(never)] fn spin_c(n: usize) -> usize { let mut k = 0; let mut i = 0; while i < n { k += 2; i += 1; } k }
-#[inline(never)] fn spin_d(n: usize) -> usize { let mut k = 0; let mut i = 0; while i < n { k += 2; i += 1; } k }
-#[kani::proof]
-#[kani::unwind(5)]
-fn probe_patch() {
-    let canvas_region = Region { left: 0, top: 0, width: 2, height: 2 };
-    let old: [[f32; 2]; 2] = finite_samples();
-    let mut canvas = ImageWithRegion::new(1, None);
-    canvas.append_channel(float_buffer(&old), canvas_region);
-    let mut infos = [BlendingModeInformation { mode: PatchBlendMode::Replace, alpha_channel: 0, clamp: false }];
-    let mut targets = [PatchTarget { x: 1, y: 1, blending: stack_vec(&mut infos) }];
-    let patch_ref = PatchRef { ref_idx: 0, x0: 0, y0: 0, width: 1, height: 1, patch_targets: stack_vec(&mut targets) };
-    let a = spin_a(canvas.color_channels());
-    let b = spin_b(canvas.regions_and_shifts()[0].0.width as usize);
-    let c = spin_c(canvas.buffer()[0].width());
-    let mut n = 0;
-    for t in &patch_ref.patch_targets { for bi in std::iter::repeat_n(&t.blending[0], 1).chain(&t.blending[1..]) { n += spin_d(bi.mode as usize); } }
-    assert!(a + b + c + n == 2 + 4 + 4 + 2);
-    std::mem::forget(canvas);
-    std::mem::forget(patch_ref);
-}
-// PROBE-END
